@@ -161,8 +161,9 @@ def _state_equal(a: dict[str, Any], b: dict[str, Any]) -> list[str]:
     for k in sorted(set(a) | set(b)):
         x, y = a.get(k, 'MISSING'), b.get(k, 'MISSING')
         if isinstance(x, torch.Tensor) and isinstance(y, torch.Tensor):
-            if x.shape != y.shape or x.dtype != y.dtype or not torch.equal(
-                    x, y):
+            # byte comparison: placeholders from torch.empty may hold NaNs
+            if x.shape != y.shape or x.dtype != y.dtype or _bytes(
+                    x) != _bytes(y):
                 bad.append(k)
         elif isinstance(x, torch.Tensor) or isinstance(y, torch.Tensor):
             bad.append(k)
@@ -298,7 +299,9 @@ class RankEnv:
 
     # -- restore after a crash ------------------------------------------
     def _restore(self) -> None:
-        ck = self.store.ckpt
+        # the checkpoint as it was when the job was restarted (a fast rank
+        # may already be writing the next one while a slow rank restores)
+        ck = self.plan['_boot_ckpt']
         rec: dict[str, Any] = {'op': 'restore', 'inc': self.inc,
                                'had_ckpt': ck is not None}
         self.records.append(rec)
@@ -515,6 +518,15 @@ class RankEnv:
         }
         rec['G_after'] = {n: models.combined_grad(m) for n, m, _ in self.reg}
         self.opt.step()
+        inj = self.plan.get('_inject')
+        if inj and rec['i'] in inj['weights']:
+            # cross-run comparisons keep the model weights in lock-step so
+            # that only K-FAC's own arithmetic is compared (see DESIGN 3.2)
+            model.load_state_dict(inj['weights'][rec['i']])
+            self.sim.probe('weights_injected')
+        if self.plan.get('record_weights') and self.rank == 0:
+            rec['weights_after'] = {
+                k: v.detach().clone() for k, v in model.state_dict().items()}
         if self.twin is not None:
             self.twin.load_state_dict(model.state_dict())
         # ---- optional boundary monitors (all legal user calls)
@@ -609,6 +621,9 @@ class RankEnv:
             self.bad('C03.collective_in_eval_pass')
         self.sim.probe('eval_pass')
 
+    def op_nop(self, op: dict[str, Any], rec: dict[str, Any]) -> None:
+        return
+
     def op_reset(self, op: dict[str, Any], rec: dict[str, Any]) -> None:
         self.pre.reset_batch()
         self.sim.probe('reset_batch_at_boundary')
@@ -701,7 +716,8 @@ def make_chooser(plan: dict[str, Any], inc: int, tapes: Any) -> Any:
     return sched.PolicyChooser(rng, s['policy'], plan['world'])
 
 
-def execute(plan: dict[str, Any], tapes: Any = None) -> dict[str, Any]:
+def execute(plan: dict[str, Any], tapes: Any = None,
+            inject: Any = None) -> dict[str, Any]:
     """Run one plan; returns observations of every incarnation."""
     _wrap_linalg()
     torch.set_num_threads(1)
@@ -720,6 +736,8 @@ def execute(plan: dict[str, Any], tapes: Any = None) -> dict[str, Any]:
         sim = core.Sim(plan['world'], make_chooser(plan, k, tapes), cfg)
         p2 = dict(plan)
         p2['_restart_op'] = inc['restart_op']
+        p2['_inject'] = inject
+        p2['_boot_ckpt'] = store.ckpt
         envs: dict[int, RankEnv] = {}
 
         def prog(rank: int, p2: Any = p2, inc: Any = inc, k: int = k,
